@@ -1,5 +1,6 @@
 import FeatherModel.Lemmas.ClassReadFrames
 import FeatherModel.Lemmas.ClassReadNames
+import FeatherModel.Lemmas.ClassReadAnnoLemmas
 
 /-! C01 lemmas: `read_field` on an encoded field. -/
 
@@ -39,6 +40,22 @@ theorem readFieldAttr_enc (p : Pool) (a : SFieldAttr) (ha : a.Legal p) (f f' : F
       simp only [hc, Option.isNone_none, if_true, Option.some.injEq] at h; subst h
       simp [readFieldAttr, SFieldAttr.raw, attrFrame, u16_be16 _ h1, h2, be16_length, u32_be32 2 (by decide), n1, n2, n3,
         readUtf8Ref, u16_be16 _ h3, h4, hc, insertIfEmpty_none]
+  | annotations nc visible as =>
+    obtain ⟨h1, h2, h3, h4, h5⟩ := ha
+    have hread := readAnnotations_enc p as h3 h4 r
+    cases visible with
+    | true =>
+      obtain ⟨n1, n2, n3, n4⟩ := fieldNe_RVA
+      simp only [SFieldAttr.apply, if_true, Option.some.injEq] at h; subst h
+      simp only [if_true] at h2
+      simp only [readFieldAttr, SFieldAttr.raw, attrFrame, List.append_assoc, u16_be16 _ h1, ok_bind, h2, u32_be32 _ h5,
+        n1, n2, n3, n4, if_false, if_true, hread, pure_eq]
+    | false =>
+      obtain ⟨n1, n2, n3, n4, n5⟩ := fieldNe_RIA
+      simp only [SFieldAttr.apply, Bool.false_eq_true, if_false, Option.some.injEq] at h; subst h
+      simp only [Bool.false_eq_true, if_false] at h2
+      simp only [readFieldAttr, SFieldAttr.raw, attrFrame, List.append_assoc, u16_be16 _ h1, ok_bind, h2, u32_be32 _ h5,
+        n1, n2, n3, n4, n5, if_false, if_true, hread, pure_eq]
   | unknown nc name b =>
     obtain ⟨h1, h2, hnot, hlen⟩ := ha
     simp only [fieldAttrNames, List.mem_cons, List.not_mem_nil, or_false, not_or] at hnot
@@ -48,8 +65,13 @@ theorem readFieldAttr_enc (p : Pool) (a : SFieldAttr) (ha : a.Legal p) (f f' : F
       n1, n2, n3, n4, n5, n6, n7, n8, if_false, readUnknown, takeN_append, pure_eq]
 
 theorem fieldFrameOk (p : Pool) (a : SFieldAttr) (ha : a.Legal p) : FrameOk a.raw := by
-  cases a <;> simp only [SFieldAttr.Legal] at ha <;> simp [FrameOk, SFieldAttr.raw, be16_length, ha.1]
-  case unknown nc name b => exact ha.2.2.2
+  cases a with
+  | annotations nc visible as => exact ⟨ha.1, ha.2.2.2.2⟩
+  | unknown nc name b => exact ⟨ha.1, ha.2.2.2⟩
+  | deprecated nc => exact ⟨ha.1, by simp [SFieldAttr.raw]⟩
+  | synthetic nc => exact ⟨ha.1, by simp [SFieldAttr.raw]⟩
+  | constantValue nc cp v => exact ⟨ha.1, by simp [SFieldAttr.raw, be16_length]⟩
+  | signature nc cp sig => exact ⟨ha.1, by simp [SFieldAttr.raw, be16_length]⟩
 
 theorem readField_enc (p : Pool) (f : FieldLayout) (hf : f.Legal p) (ff : FieldFacts) (hfacts : f.facts = some ff) (r : Bytes) :
     readField p (f.encode ++ r) = ok (ff, r) := by
